@@ -31,6 +31,40 @@ for n in (1, 2):
         ddir = {"main": ".", "route": "route", "proxy": "proxy", "tcp": "proxy/tcp", "consul": "registry/consul", "config": "config", "cert": "cert", "logger": "logger",
                 "gzip": "proxy/gzip", "auth": "auth", "custom": "registry/custom", "transport": "transport", "noroute": "noroute", "uuid": "uuid", "exit": "exit"}.get(pkg, pkg)
     ddir = ddir.strip("./") or "."
+    # the guess is checked against the unchanged tree: the demo must pass where it is placed;
+    # otherwise every directory of /repo holding that package name is tried
+    def passes(dr):
+        import tempfile, shutil
+        tmp = tempfile.mkdtemp(prefix="vdir-")
+        try:
+            subprocess.check_call(["rsync", "-a", "--exclude", ".git", "/repo/", tmp + "/"])
+            shutil.copy(demo, os.path.join(tmp, dr, "zz_verif_demo_test.go"))
+            env = dict(os.environ, GOFLAGS="-mod=mod", GOPROXY="off")
+            r = subprocess.run(["go", "test", "-vet=off", "-count=1", "-run", runre, "./" + dr + "/"], cwd=tmp, env=env, stdout=subprocess.PIPE, stderr=subprocess.STDOUT, text=True)
+            return r.returncode == 0 and "no tests to run" not in r.stdout
+        except Exception:
+            return False
+        finally:
+            shutil.rmtree(tmp, ignore_errors=True)
+    if not passes(ddir):
+        cands = []
+        for root, dirs, files in os.walk("/repo"):
+            if "/.git" in root or "/vendor" in root:
+                continue
+            for f in files:
+                if f.endswith(".go") and not f.endswith("_test.go"):
+                    try:
+                        head = open(os.path.join(root, f)).read(4000)
+                    except Exception:
+                        continue
+                    mm = re.search(r"^package (\w+)", head, re.M)
+                    if mm and (mm.group(1) == pkg or mm.group(1) + "_test" == pkg):
+                        cands.append(os.path.relpath(root, "/repo"))
+                    break
+        for c in sorted(set(cands)):
+            if c != ddir and passes(c):
+                ddir = c
+                break
     # what it needs: the paragraph mentioning trigger/circumstance for this change (best effort, edited by hand later)
     m = re.search(r"(?is)change\s*%d.*?(trigger|circumstance|manifest|only shows|needs)[^\n]*\n?([^\n]*)" % n, notes)
     needs = (m.group(0)[-300:].replace("\n", " ") if m else "see NOTES-from-author.md")
